@@ -577,21 +577,18 @@ package sam
 //@ # C11 (SAM side): each received pair's rows are byte-encoded in place with the encoding table (so they are the rows
 //@ # `variants` reads from the FASTA form of the same pair, C16/EA_case), the offset tables are GetMSAOffsets of the
 //@ # encoded reference row, and GetVariantsPair's result is forwarded unchanged.
-//@ pred cdsFit(cds []variants.Region, n int) = forall(r, 0, len(cds), forall(j, 0, len(cds[r].Positions), 1 <= cds[r].Positions[j] && cds[r].Positions[j] <= n))
 //@ func getVariantsSam
 //@   modifies everything
 //@   requires forall(t, 0, len(recv(cAlignPair)), len(recv(cAlignPair)[t].ref) == len(recv(cAlignPair)[t].query) && disjoint(recv(cAlignPair)[t].ref, recv(cAlignPair)[t].query))
 //@   # the annotation fits every pair's reference row: positions are within 1..(number of reference bases of the row), i.e. the
 //@   # row without '-' has the reference's length (C02) and the regions were built for that reference
 //@   requires forall(t, 0, len(recv(cAlignPair)), forall(j, 0, len(intregions), 1 <= intregions[j] && intregions[j] <= count(k, 0, len(recv(cAlignPair)[t].ref), recv(cAlignPair)[t].ref[k] != '-')))
-//@   requires forall(t, 0, len(recv(cAlignPair)), cdsFit(cdsregions, count(k, 0, len(recv(cAlignPair)[t].ref), recv(cAlignPair)[t].ref[k] != '-')))
 //@   requires forall(r, 0, len(cdsregions), len(cdsregions[r].Translation) * 3 >= len(cdsregions[r].Positions))
 //@   # rows of different pairs do not share arrays (each pair is built from fresh rows by blockToSeqPair)
 //@   requires forall(t, 0, len(recv(cAlignPair)), forall(u, 0, len(recv(cAlignPair)), implies(t != u, disjoint(recv(cAlignPair)[t].ref, recv(cAlignPair)[u].ref) && disjoint(recv(cAlignPair)[t].query, recv(cAlignPair)[u].ref))))
 //@   loop 1:
 //@     writes everything
 //@     invariant [fits.int] forall(t, range_i, len(recv(cAlignPair)), forall(j, 0, len(intregions), 1 <= intregions[j] && intregions[j] <= count(k, 0, len(recv(cAlignPair)[t].ref), recv(cAlignPair)[t].ref[k] != '-')))
-//@     invariant [fits.cds] forall(t, range_i, len(recv(cAlignPair)), cdsFit(cdsregions, count(k, 0, len(recv(cAlignPair)[t].ref), recv(cAlignPair)[t].ref[k] != '-')))
 //@     invariant [fits.tr] forall(r, 0, len(cdsregions), len(cdsregions[r].Translation) * 3 >= len(cdsregions[r].Positions))
 //@     invariant len(sent(cVariants)) == range_i && len(sent(cErr)) == 0
 //@     invariant forall(t, 0, range_i, sent(cVariants)[t].Queryname == recv(cAlignPair)[t].queryname && sent(cVariants)[t].Idx == recv(cAlignPair)[t].idx)
